@@ -3,30 +3,42 @@ import itertools, os, time
 
 PROPS = ["C09/Props.v"]
 META = dict(
-    text="Rocq theorems over an executable transcription of pkg/obialign's packed-word banded LCS kernel "
-         "(FastLCSEGFScoreByte: two rows of anti-diagonals, uint64 cells, stale scratch buffer as an input), of _samenuc/_iupac "
-         "and of D1Or0. Proved for all inputs: the packed word order is the lexicographic order (in band, score, shorter path) and "
-         "_incpath/_incscore/_setout act on one field without overflow (C09_pack_order); _samenuc is IUPAC set intersection "
-         "(C09_iupac_compat); the full-matrix reference is the length of a longest IUPAC-compatible common subsequence with the "
-         "shortest alignment achieving it and is symmetric (C09_ref_is_lcs, C09_ref_symmetric; inductive definitions of common "
-         "subsequence and alignment); D1Or0 answers 0 / 1 / -1 exactly, with a position and symbols that reproduce the edit, "
-         "symmetrically (C09_d1or0_exact; inductive definition of a single edit). Bounded, by evaluation inside the kernel: the "
-         "banded kernel equals the reference within the bound and never gives a spurious within-bound answer for ALL pairs over "
-         "{a,c,g,t} of length <= 4 x bounds -1..5 (C09_band_exact_upto_4), and is independent of poisoned reused buffers and "
-         "symmetric for length <= 3 (C09_band_buffer_sym_upto_3). On every run the real FastLCSScore, FastLCSEGFScore and D1Or0 run "
-         "with fresh and reused scratch buffers on all ordered pairs over {a,c,g,t} up to length 4 (thorough: 6) x all bounds and on "
-         "random IUPAC pairs up to 400 bases (length differences -20..20, tandem repeats, rotations) against a full-matrix Python "
-         "oracle (exact within the bound, never a spurious within-bound answer, fresh = reused, symmetry, D1Or0 against the "
-         "definition), and the Coq model is evaluated by vm_compute on the same small pairs from the same stale buffer words.",
-    note="Trusted: Coq kernel + vm_compute; harness and generators; the Python oracle. The band theorem is bounded (name _upto_4): "
-         "for longer sequences exactness of the band rests on the comparison of the real code with the oracle on every run. "
-         "Beyond the bound the property accepts 'not found' and any beyond-bound pair alike, so the correspondence compares answers "
-         "after that projection (Corr.v). End-gap-free mode (FastLCSEGFScore, no caller in the code base) is checked against a "
-         "full-matrix oracle with free horizontal moves in the first and last row and is modelled and correspondence-checked, but has "
-         "no Coq reference theorem; its third result (end position) is modelled but not compared. Field overflow (sequences of "
-         "2^15 symbols and more) is outside the theorems' side conditions.")
-TRUSTED = ["field widths of the packed word (wsize = 16): sequences are assumed shorter than 2^15 so that no field overflows "
-           "(side condition of the theorems; the code has it implicitly)"]
+    text="Rocq theorems over an executable transcription of pkg/obialign's packed-word banded LCS kernel (FastLCSEGFScoreByte: two "
+         "rows of anti-diagonals, uint64 cells, the stale scratch buffer as an input), of _samenuc/_iupac and of D1Or0. The banded "
+         "kernel is proved exact as a refinement in four layers, each a theorem for ALL inputs: (i) C09_band_matrix - the two-row "
+         "program returns the corner cell of a full matrix restricted to the band, both modes, ANY buffer content, hence "
+         "C09_buffer_independent (no stale word is read before it is written); (ii) C09_band_cells - every in-band cell is a sound "
+         "packed pair not better than the unbanded lexicographic DP and equals it wherever the optimum has few enough differences; "
+         "(iii) C09_band_geometry - that condition keeps optimal paths strictly inside the band and holds at the corner whenever the "
+         "reference is within the bound; (iv) C09_band_exact - for all pairs with |a|+|b| <= 30000, all bounds and all buffers "
+         "FastLCSScore returns the reference pair within the bound (or with bound -1) and otherwise 'not found' or a beyond-bound "
+         "pair; C09_band_symmetric - FastLCSScore is symmetric for all inputs. Also for all inputs: packed word order "
+         "(C09_pack_order), _samenuc = IUPAC set intersection on the table of the build under test (C09_iupac_compat; _iupac, "
+         "wsize, dwsize, the constant cells and encode/decode samples are dumped from the current build into C09/Gen/Tables.v "
+         "before every run and re-proved, C09_pack_consts), the reference = LCS length + shortest alignment (C09_ref_is_lcs, "
+         "inductive definitions), D1Or0 = 0 / 1 / -1 exactly against an inductive single-edit relation with reproducing position and "
+         "symbols and symmetry (C09_d1or0_exact) and against a recursive Levenshtein distance (C09_d1or0_lev). End-gap-free mode "
+         "(FastLCSEGFScore): reference recursion lcs_ref_egf, optimal for an inductive definition of alignments with free ends "
+         "(C09_egf_ref_optimal); the same layers (ii)-(iv) with a score-based completeness condition (C09_egf_cells) give "
+         "C09_egf_exact for all pairs with |a|+|b| <= 30000, all bounds, all buffers (first two results). On every run the real "
+         "FastLCSScore, FastLCSEGFScore and "
+         "D1Or0 run with fresh and reused buffers on all ordered pairs over {a,c,g,t} up to length 4 (thorough: 6) x all bounds, "
+         "D1Or0 on all ordered pairs up to length 5 (thorough: 6) against the Levenshtein classes incl. position, symbols and symmetry, random IUPAC pairs up to 400 "
+         "bases, and runs shaped like the call sites (obiclean all-pairs with bound = step, long runs of 300+ calls through one "
+         "buffer over families of 50-500 bases with bounds 1-10, the shrinking-bound candidate loop of obitag) against independent "
+         "oracles (full matrix; certified band; bit-parallel LCS), and the Coq model and the two Coq references are evaluated by "
+         "vm_compute on the same small cases (same stale buffer words).",
+    note="Trusted: Coq kernel + vm_compute; harness and generators; the Python oracles. Side condition of C09_band_cells/_exact: "
+         "|a|+|b| <= 30000 (no field of the 16-bit packed word wraps; the code has the limit implicitly; same for C09_egf_cells/_exact). "
+         "The full-matrix Python oracles that judge the long sequences are tied to the two Coq references (lcs_ref, lcs_ref_egf) by "
+         "correspondence cases on every run (sequences up to 6 symbols: the references are plain exponential recursions). "
+         "FastLCSEGFScore has no caller in the code base. Beyond the bound the property accepts 'not found' and any beyond-bound pair alike, so the correspondence "
+         "compares answers after that projection (Corr.v). The third result of FastLCSEGFScore (end position) is modelled (and "
+         "proved buffer-independent) but neither specified nor compared with the code: the property does not speak about it and it "
+         "depends on the order in which equally good cells are met.")
+TRUSTED = ["field widths of the packed word (wsize = 16, re-proved against the build on every run): C09_band_exact assumes |a|+|b| <= 30000 "
+           "so that no field overflows and _notavail/_out (length 30000) stay worse than every real cell",
+           "hook pkg/obialign/verif2_c09.go returns the real _iupac / wsize / dwsize / _empty / _out / _notavail / encodeValues / decodeValues"]
 
 # IUPAC nucleotide codes as sets of bases (NC-IUB 1984), written independently of the code's table
 IUPAC_SETS = dict(a="a", c="c", g="g", t="t", u="t", r="ag", y="ct", s="cg", w="at", k="gt", m="ac",
@@ -103,10 +115,10 @@ def dist1(a, b):
     return 1 if any(b[:k] + b[k + 1:] == a for k in range(len(b))) else 2
 
 
-def check_d1(a, b, d):
+def check_d1(a, b, d, nolev=False):
     """None if the D1Or0 answer d = [verdict, pos, a1, a2] is what the property demands, else a reason."""
     e = dist1(a, b)
-    if len(a) <= 12 and len(b) <= 12:
+    if not nolev and len(a) <= 12 and len(b) <= 12:
         assert min(lev(a, b), 2) == e
     v, pos, a1, a2 = d
     if v == -99:
@@ -142,6 +154,177 @@ def check_lcs(ref, m, s, l, extra=0):
     if l - s <= m:
         return "spurious within-bound answer %s (optimum %s has %d differences > %d)" % ((s, l), (rs, rl), rl - rs, m)
     return None
+
+
+def dp_banded(a, b, W):
+    """Exact (matches, shortest length) by a DP restricted to the diagonals -W .. delta+W (a the longer sequence), with a
+    certificate: a path leaving that band has at least 2W+2+delta gaps, hence at most |b|-W-1 matching columns; if the band
+    optimum has at least |b|-W matches it is the global lexicographic optimum. Returns None when the certificate fails."""
+    if len(a) < len(b):
+        a, b = b, a
+    la, lb = len(a), len(b)
+    delta = la - lb
+    NEG = -(1 << 60)
+    # row i holds columns j in [i-W, i+delta+W] clipped to [0, la]; value = s*KEY - l
+    lo_prev, prev = 0, [-j for j in range(0, min(la, delta + W) + 1)]
+    for i in range(1, lb + 1):
+        lo = max(0, i - W)
+        hi = min(la, i + delta + W)
+        cb = b[i - 1]
+        cur = [NEG] * (hi - lo + 1)
+        hi_prev = lo_prev + len(prev) - 1
+        for j in range(lo, hi + 1):
+            v = NEG
+            if j == 0:
+                v = -i
+            else:
+                if lo_prev <= j - 1 <= hi_prev:
+                    d = prev[j - 1 - lo_prev]
+                    if d > NEG:
+                        v = d + (KEY - 1 if same(a[j - 1], cb) else -1)
+                if lo_prev <= j <= hi_prev:
+                    u = prev[j - lo_prev] - 1
+                    if u > v:
+                        v = u
+                if j - 1 >= lo:
+                    u = cur[j - 1 - lo] - 1
+                    if u > v:
+                        v = u
+            cur[j - lo] = v
+        lo_prev, prev = lo, cur
+    v = prev[la - lo_prev]
+    s = (v + KEY - 1) // KEY
+    if s < lb - W:
+        return None
+    return s, s * KEY - v
+
+
+def ref_pair(job):
+    """exact reference of one pair: certified band first (cheap for similar sequences), full matrix otherwise"""
+    a, b = job
+    W = 24
+    while W <= 96:
+        r = dp_banded(a, b, W)
+        if r is not None:
+            return r
+        W *= 2
+    return dp(a, b)
+
+
+def lcs_len_bitpar(a, b):
+    """Length of a longest IUPAC-compatible common subsequence, bit-parallel (Hyyro 2004) on Python integers."""
+    if not a or not b:
+        return 0
+    m = len(a)
+    full = (1 << m) - 1
+    masks = {}
+    v = full
+    for c in b:
+        mc = masks.get(c)
+        if mc is None:
+            mc = 0
+            for k, x in enumerate(a):
+                if same(x, c):
+                    mc |= 1 << k
+            masks[c] = mc
+        u = v & mc
+        v = ((v + u) | (v - u)) & full
+    return m - bin(v).count("1")
+
+
+# ------------------------------------------------------------------ regenerated tables (DESIGN 2.3-B; pattern of C07)
+VERIF = os.path.dirname(os.path.dirname(os.path.dirname(os.path.abspath(__file__))))
+TABLES_V = os.path.join(VERIF, "coq", "theories", "C09", "Gen", "Tables.v")
+CODES16 = "acgturyswkmbdhvn"
+
+
+def tables_source(t):
+    def nl(l):
+        return "[" + "; ".join(str(x) for x in l) + "]"
+    enc = "; ".join("(%d, %d, %s, %d)" % (e[0], e[1], "true" if e[2] else "false", e[3]) for e in t["enc"])
+    dec = "; ".join("(%d, (%d, %d, %s))" % (e[0], e[1], e[2], "true" if e[3] else "false") for e in t["dec"])
+    return ("(** GENERATED by tools/props/c09.py regen() from the CURRENT build (vh c09, case {\"kind\":\"tables\"}; hook\n"
+            "    pkg/obialign/verif2_c09.go). Do not edit.\n"
+            "    iupac_tab    : obialign._iupac (one set of bases per letter a..z);\n"
+            "    wsize_gen, dwsize_gen : the constants wsize, dwsize of fastlcs.go;\n"
+            "    empty_gen, out_gen, notavail_gen : the words _empty, _out, _notavail;\n"
+            "    enc_samples  : (score, length, out, encodeValues(score, length, out));\n"
+            "    dec_samples  : (word, decodeValues(word)). *)\n"
+            "From Coq Require Import NArith List.\nImport ListNotations.\nOpen Scope N_scope.\n\n"
+            "Definition iupac_tab : list N := %s.\n\nDefinition wsize_gen : N := %d.\nDefinition dwsize_gen : N := %d.\n\n"
+            "Definition empty_gen : N := %d.\nDefinition out_gen : N := %d.\nDefinition notavail_gen : N := %d.\n\n"
+            "Definition enc_samples : list (N * N * bool * N) := [%s].\n\n"
+            "Definition dec_samples : list (N * (N * N * bool)) := [%s].\n" % (
+                nl(t["iupac"]), t["wsize"], t["dwsize"], t["empty"], t["out"], t["notavail"], enc, dec))
+
+
+def dump_tables(ctx):
+    obs, err = ctx.vh("c09", [dict(kind="tables")], timeout=60)
+    if obs is None:
+        raise RuntimeError("vh c09 tables: %s" % err)
+    return obs[0]
+
+
+def regen(ctx):
+    """Called by check.py before the Coq build: rewrite C09/Gen/Tables.v from the current code (write-if-changed), so that
+    C09_iupac_compat and C09_pack_consts are re-proved over the tables of the build under test."""
+    vh, err = ctx.build_harness()
+    if vh is None:
+        raise RuntimeError("harness build failed: %s" % err)
+    t = dump_tables(ctx)
+    src = tables_source(t)
+    os.makedirs(os.path.dirname(TABLES_V), exist_ok=True)
+    old = open(TABLES_V).read() if os.path.exists(TABLES_V) else None
+    if old != src:
+        with open(TABLES_V, "w") as f:
+            f.write(src)
+        ctx.cov["tables_regenerated"] = "changed"
+    else:
+        ctx.cov["tables_regenerated"] = "unchanged"
+    ctx._c09_tables = t
+
+
+def table_failures(t):
+    """Executable statement of the table theorems on the dumped tables: [(what, x, y)] with x, y the symbols to replay."""
+    bad = []
+    tab = t["iupac"]
+    for x in CODES16:
+        for y in CODES16:
+            got = (tab[ord(x) - 97] & tab[ord(y) - 97]) > 0 if len(tab) == 26 else None
+            want = bool(set(IUPAC_SETS[x]) & set(IUPAC_SETS[y]))
+            if got != want:
+                bad.append(("_iupac: %r and %r are %scompatible in the table, the IUPAC sets %s / %s say %s" % (
+                    x, y, "" if got else "not ", IUPAC_SETS[x], IUPAC_SETS[y], "compatible" if want else "not compatible"), x, y))
+    if (t["wsize"], t["dwsize"]) != (16, 32):
+        bad.append(("packing constants wsize=%s dwsize=%s (model: 16, 32)" % (t["wsize"], t["dwsize"]), "#", "#"))
+    return bad
+
+
+def replay_tables(ctx, t):
+    """The table theorems are finite: compute the failing symbol pairs from the dumped tables and replay them on the code."""
+    seen = set()
+    for what, x, y in table_failures(t):
+        if (x, y) in seen or (y, x) in seen or len(seen) >= 3:
+            continue
+        seen.add((x, y))
+        if x == "#":
+            # narrower fields overflow earlier: identical sequences just longer than the score field can count
+            n = (1 << min(t["wsize"], t["dwsize"] - t["wsize"], 16)) + 1000 if min(t["wsize"], t["dwsize"] - t["wsize"]) < 16 else 2000
+            case = dict(a="acgt" * (n // 4), b="acgt" * (n // 4), ms=[0, 1])
+            obs = ctx.vh_robust("c09", [case], timeout=120)
+            ref = (len(case["a"]), len(case["a"]))
+            wrong = [r for r in obs[0].get("r", []) if (r[1], r[2]) != ref or (r[3], r[4]) != ref]
+            ctx.violation("table_consts", dict(property="C09", kind="table-obligation", why=what, symbols=[x, y],
+                                               case=dict(a=case["a"], b=case["b"], ms=case["ms"]),
+                                               implementation=dict(r=obs[0].get("r"), d=obs[0].get("d")),
+                                               expected=dict(lcs=ref[0], alilength=ref[1]), tables=t), no_input=not wrong)
+            continue
+        case = dict(a="ac" + x + "gt", b="ac" + y + "gt", ms=[-1, 0])
+        obs = ctx.vh_robust("c09", [case], timeout=60)
+        ref = dp(case["a"], case["b"])
+        ctx.violation("table_%s_%s" % (x, y), dict(property="C09", kind="table-obligation", why=what, symbols=[x, y], case=case,
+                                                  implementation=dict(r=obs[0].get("r"), d=obs[0].get("d")),
+                                                  expected=dict(lcs=ref[0], alilength=ref[1]), tables=t))
 
 
 # ------------------------------------------------------------------ generators
@@ -279,6 +462,10 @@ def coq_terms(c, o):
         ts.append("CL %s %s %s true %s %s %s %s" % (a, b, zt(m), wlist(pre2), zt(es2), zt(el2), zt(ee2)))
     d = o["d"]
     ts.append("CD %s %s %s %s %d %d" % (a, b, zt(d[0]), zt(d[1]), d[2], d[3]))
+    if len(c["a"]) <= 6 and len(c["b"]) <= 6:      # the Coq references (plain recursion, exponential) against the Python oracle
+        r, er = dp(c["a"], c["b"]), dp(c["a"], c["b"], egf=True)
+        ts.append("CR %s %s false %s %s" % (a, b, zt(r[0]), zt(r[1])))
+        ts.append("CR %s %s true %s %s" % (a, b, zt(er[0]), zt(er[1])))
     return ts
 
 
@@ -351,6 +538,166 @@ def oracle(ctx, cases, obs, label, stats):
     return nviol
 
 
+# ------------------------------------------------------------------ call-site shaped runs (obiclean, obirefidx, obitag)
+def amplicon(rng, L):
+    s = [rng.choice("acgt") for _ in range(L)]
+    if rng.random() < 0.3:      # a homopolymer / microsatellite stretch, as in real markers
+        k = rng.randrange(0, max(1, L - 12))
+        unit = rng.choice(["a", "t", "ac", "tg", "gat"])
+        s[k:k + 12] = list((unit * 12)[:12])
+    if rng.random() < 0.2:
+        s[rng.randrange(L)] = rng.choice("nryswkm")
+    return "".join(s)
+
+
+def family(rng, L, n):
+    """n variants of one amplicon of length ~L: a tree of mutated copies (0..12 edits from their parent)"""
+    seqs = [amplicon(rng, L)]
+    while len(seqs) < n:
+        seqs.append(mutate(rng, rng.choice(seqs), rng.choice([0, 1, 1, 1, 2, 2, 3, 4, 5, 8, 12]), "acgt"))
+    return seqs
+
+
+def gen_uses(rng, quick):
+    cases = []
+    # obiclean.extendSimilarityGraph: every pair i < j of one sample's variants, bound = step, one buffer per worker
+    for _ in range(6 if quick else 40):
+        seqs = family(rng, rng.randrange(50, 501), 12 if quick else 16)
+        step = rng.randrange(1, 11)
+        cases.append(dict(kind="run", seqs=seqs, calls=[[i, j, step] for i in range(len(seqs)) for j in range(i + 1, len(seqs))]))
+    # obirefidx / obicleandb / obilandmark: long runs through ONE buffer over sequences of very different lengths and bounds
+    for _ in range(2 if quick else 10):
+        fams = [family(rng, L, 8) for L in (rng.randrange(50, 120), rng.randrange(120, 300), rng.randrange(300, 501), rng.randrange(50, 501))]
+        seqs = [x for f in fams for x in f]
+        calls = []
+        for _ in range(300 if quick else 1500):
+            f = rng.randrange(len(fams))
+            i = 8 * f + rng.randrange(8)
+            j = 8 * f + rng.randrange(8) if rng.random() < 0.9 else rng.randrange(len(seqs))
+            m = rng.randrange(1, 11)
+            if rng.random() < 0.05 and max(len(seqs[i]), len(seqs[j])) <= 130:
+                m = -1
+            calls.append([i, j, m])
+        cases.append(dict(kind="run", seqs=seqs, calls=calls))
+    # obitag.FindClosests: one query against candidates, the bound shrinking to the best score seen so far
+    for _ in range(10 if quick else 80):
+        L = rng.randrange(50, 501)
+        q = amplicon(rng, L)
+        refs = [mutate(rng, q, k, "acgt") for k in sorted([rng.choice([0, 1, 2, 3, 4, 5, 6, 8, 10, 12, 15, 20, 25, 30]) for _ in range(18)], reverse=True)]
+        other = family(rng, L + rng.randrange(-20, 21), 4)
+        for o in other:
+            refs.insert(rng.randrange(1, len(refs) + 1), o)
+        if rng.random() < 0.5:      # candidates in no particular order
+            head, tail = refs[:1], refs[1:]
+            rng.shuffle(tail)
+            refs = head + tail
+        cases.append(dict(kind="tag", seqs=[q] + refs))
+    return cases
+
+
+def uses_calls(cases, obs):
+    """[(case index, a, b, m, s, l, d)] : every kernel call of the runs; s = l = -2 marks a D1Or0-only call"""
+    out = []
+    for k, (c, o) in enumerate(zip(cases, obs)):
+        if o.get("kind") == "crash":
+            out.append((k, None, None, 0, -99, -99, -99))
+            continue
+        for r in o["r"]:
+            if c["kind"] == "run":
+                i, j, m, s, l, d = r
+                out.append((k, c["seqs"][i], c["seqs"][j], m, s, l, d))
+            else:
+                j, m, s, l, d = r
+                out.append((k, c["seqs"][0], c["seqs"][j], m, s, l, d))
+    return out
+
+
+def eval_uses(ctx, cases, obs, stats):
+    calls = uses_calls(cases, obs)
+    need = {}
+    pre = []
+    for (k, a, b, m, s, l, d) in calls:
+        if a is None or s == -2:
+            pre.append(None)
+            continue
+        ll = lcs_len_bitpar(a, b)
+        pre.append(ll)
+        if m == -1 or max(len(a), len(b)) - ll <= m:
+            need[(a, b) if len(a) >= len(b) else (b, a)] = None
+    keys = sorted(need)
+    if keys:
+        import multiprocessing
+        with multiprocessing.Pool(min(8, os.cpu_count() or 2)) as pool:
+            for key, r in zip(keys, pool.map(ref_pair, keys, chunksize=8)):
+                need[key] = r
+    nviol = 0
+    dist = stats["dist"]
+    for (k, a, b, m, s, l, d), ll in zip(calls, pre):
+        stats["evals"] += 1
+        w = None
+        if a is None:
+            w = "harness crash"
+        elif s == -2:
+            e = dist1(a, b)
+            dist["use:d1"] = dist.get("use:d1", 0) + 1
+            if d != {0: 0, 1: 1, 2: -1}[e]:
+                w = "D1Or0 verdict %d, distance class %d" % (d, e)
+        else:
+            if d != -2 and d != {0: 0, 1: 1, 2: -1}[dist1(a, b)]:
+                w = "D1Or0 verdict %d, distance class %d" % (d, dist1(a, b))
+            ref = need.get((a, b) if len(a) >= len(b) else (b, a))
+            if ref is not None:
+                if ref[0] != ll:
+                    raise RuntimeError("oracle self-check: bit-parallel LCS %d, DP %s for %r %r" % (ll, ref, a, b))
+                w = w or check_lcs(ref, m, s, l)
+                kind = "use:within" if (m == -1 or ref[1] - ref[0] <= m) else "use:beyond(exact)"
+            else:       # max(|a|,|b|) - LCS > m: every alignment has more than m differences
+                kind = "use:beyond"
+                if s == -99:
+                    w = w or "panic"
+                elif (s, l) != (-1, -1) and (s < 0 or l < 0 or l - s <= m):
+                    w = w or "spurious within-bound answer %s (LCS %d of lengths %d/%d, bound %d)" % ((s, l), ll, len(a), len(b), m)
+            dist[kind] = dist.get(kind, 0) + 1
+        if w:
+            nviol += 1
+            if nviol <= 2:
+                c = cases[k]
+                ctx.violation("uses_%d" % k, dict(property="C09", kind="call-site-run", what=w, call=dict(a=a, b=b, m=m, answer=[s, l], d1=d),
+                                                 case=dict(kind=c["kind"], seqs=c["seqs"], calls=c.get("calls"))))
+    return nviol
+
+
+def d1all_chunk(job):
+    """D1Or0 on all ordered pairs (a, b), a = sequences lo..hi-1, b every sequence over {a,c,g,t} of length <= n, against the
+    definition (dist1, cross-checked with Levenshtein for a <= b) incl. position and symbols."""
+    import subprocess, json
+    vh_bin, n, lo, hi = job
+    seqs = list(all_seqs(n))
+    p = subprocess.run([vh_bin, "c09"], input=(json.dumps(dict(kind="d1all", n=n, lo=lo, hi=hi)) + "\n").encode(), capture_output=True, timeout=600)
+    if p.returncode != 0:
+        return lo, None, [("harness", "", "", repr(p.stderr[-300:]))], {}
+    codes = json.loads(p.stdout.decode().splitlines()[0])["codes"]
+    bad = []
+    dist = {}
+    k = 0
+    for i in range(lo, min(hi, len(seqs))):
+        a = seqs[i]
+        for j, b in enumerate(seqs):
+            c = codes[k]
+            k += 1
+            if c < 0:
+                bad.append((a, b, [-99, -99, 0, 0], "panic"))
+                continue
+            d = [(c & 3) - 1, ((c >> 2) & 15) - 1, (c >> 6) & 255, c >> 14]
+            if i <= j:
+                assert min(lev(a, b), 2) == dist1(a, b)
+            w = check_d1(a, b, d, nolev=True)
+            dist[d[0]] = dist.get(d[0], 0) + 1
+            if w and len(bad) < 3:
+                bad.append((a, b, d, w))
+    return lo, codes, bad, dist
+
+
 class _Collect:
     """stand-in for vlib.Ctx inside worker processes: collects the violations"""
     def __init__(self):
@@ -419,6 +766,25 @@ def run(ctx, broken):
             k = "len<=%d" % (4 if max(len(c["a"]), len(c["b"])) <= 4 else 8 if max(len(c["a"]), len(c["b"])) <= 8 else
                              50 if max(len(c["a"]), len(c["b"])) <= 50 else 400)
             sizes[k] = sizes.get(k, 0) + 1
+
+    # ---- 0. the finite table obligations on the tables of the build under test (regenerated into C09/Gen/Tables.v by regen)
+    tabs = getattr(ctx, "_c09_tables", None) or dump_tables(ctx)
+    replay_tables(ctx, tabs)
+    ctx.cov["tables"] = dict(iupac=tabs["iupac"], wsize=tabs["wsize"], dwsize=tabs["dwsize"], failing_pairs=len(table_failures(tabs)))
+
+    # ---- 0b. recorded limit of the 16-bit packed fields (known finding lcs-16bit-fields): identical sequences of 65540 symbols
+    big = "acgt" * 16385
+    bo = ctx.vh_robust("c09", [dict(a=big, b=big, ms=[0])], timeout=180, one_timeout=90)[0]
+    br = (bo.get("r") or [[0, -99, -99, -99, -99]])[0]
+    ctx.cov["field_overflow_witness"] = dict(length=len(big), bound=0, answer=br[1:3])
+    if (br[1], br[2]) != (len(big), len(big)) or (br[3], br[4]) != (len(big), len(big)):
+        what = "FastLCSScore on two identical sequences of %d symbols, bound 0, answers %s instead of %s (16-bit score field overflows)" % (
+            len(big), (br[1], br[2]), (len(big), len(big)))
+        if ctx.kf_match("lcs-16bit-fields"):
+            ctx.known("lcs-16bit-fields", what)
+        else:
+            ctx.violation("field_overflow", dict(property="C09", kind="field-overflow", what=what, case=dict(unit="acgt", repeat=16385, ms=[0]),
+                                                 implementation=dict(r=bo.get("r")), expected=dict(lcs=len(big), alilength=len(big))))
 
     # ---- 1. corpus + small dumped cases: oracle AND correspondence with the Coq model
     pm = []
@@ -494,6 +860,59 @@ def run(ctx, broken):
     account(rcases)
 
     timing["random"] = round(time.time() - t0, 1)
+
+    # ---- 4. runs shaped like the call sites (obiclean / obirefidx / obitag): 50..500 bases, bounds 1..10, one buffer per run
+    ucases = gen_uses(rng, ctx.quick)
+    uobs = ctx.vh_robust("c09", ucases, timeout=1200, one_timeout=60)
+    eval_uses(ctx, ucases, uobs, stats)
+    sizes["call-site runs"] = len(ucases)
+    sizes["call-site kernel calls"] = sum(len(o.get("r", [])) for o in uobs)
+    for c in ucases:
+        nontriv.add((c["kind"], tuple(c["seqs"][:3]), len(c.get("calls") or c["seqs"])))
+    timing["uses"] = round(time.time() - t0, 1)
+
+    # ---- 5. D1Or0 on ALL ordered pairs over {a,c,g,t} of length <= 5 against the Levenshtein classes, + symmetry
+    #         (thorough: part 2 already runs D1Or0 on all pairs up to length 6)
+    n_d1 = 5
+    nseq = sum(4 ** k for k in range(n_d1 + 1))
+    step = max(1, nseq // (16 if ctx.quick else 64))
+    jobs = [(ctx.vh_bin, n_d1, lo, min(nseq, lo + step)) for lo in range(0, nseq, step)]
+    import multiprocessing
+    with multiprocessing.Pool(min(8, os.cpu_count() or 2)) as pool:
+        dres = pool.map(d1all_chunk, jobs, chunksize=1)
+    rows = {}
+    d1seqs = list(all_seqs(n_d1))
+    nd1 = 0
+    for lo, codes, bad, dist in dres:
+        for a, b, d, w in bad[:max(0, 3 - len(ctx.violations))]:
+            ctx.violation("d1all_%s_%s" % (a or "-", b or "-"), dict(property="C09", kind="direct-oracle", what="D1Or0: " + w, case=dict(a=a, b=b, ms=[0]),
+                                                              implementation=dict(d=d), expected=dict(distance_class=dist1(a, b) if w != "harness" else None)))
+        for k, v in dist.items():
+            stats["dist"]["d1all=%d" % k] = stats["dist"].get("d1all=%d" % k, 0) + v
+        if codes is not None:
+            rows[lo] = codes
+            nd1 += len(codes)
+    if len(rows) == len(jobs):
+        flat = []
+        for lo in sorted(rows):
+            flat.extend(rows[lo])
+        nsym = 0
+        for i in range(nseq):
+            base = i * nseq
+            for j in range(i + 1, nseq):
+                c1, c2 = flat[base + j], flat[j * nseq + i]
+                if c1 == c2 and (c1 & 3) != 2:
+                    continue
+                ok = (c1 & 63) == (c2 & 63) and ((c1 & 3) != 2 or ((c1 >> 6) & 255, c1 >> 14) == (c2 >> 14, (c2 >> 6) & 255))
+                if not ok and nsym < 2:
+                    nsym += 1
+                    a, b = d1seqs[i], d1seqs[j]
+                    ctx.violation("d1sym_%s_%s" % (a or "-", b or "-"), dict(property="C09", kind="direct-oracle", what="D1Or0 not symmetric", case=dict(a=a, b=b, ms=[0]),
+                                                                      implementation=dict(ab=c1, ba=c2)))
+    stats["evals"] += nd1
+    sizes["d1 exhaustive<=%d" % n_d1] = nd1
+    nontriv_count[0] += sum(1 for x in d1seqs if len(x) >= 2) ** 2 - sum(1 for x in d1seqs if len(x) >= 2) if n_d1 > n_ex else 0
+    timing["d1all"] = round(time.time() - t0, 1)
     ctx.cov["timing_cumulative_s"] = timing
     ctx.cov["evaluations"] = stats["evals"]
     ctx.cov["distinct_nontrivial"] = len(nontriv) + nontriv_count[0]
@@ -521,6 +940,26 @@ def run(ctx, broken):
 
 
 def replay(ctx, rp):
+    if rp.get("kind") == "table-obligation":
+        bad = table_failures(dump_tables(ctx))
+        print("replay: tables of the current build, symbols %r:" % (rp.get("symbols"),),
+              [w for w, x, y in bad if [x, y] == rp.get("symbols")] or "obligations hold", "| failing pairs:", sorted({(x, y) for _, x, y in bad})[:8])
+    if rp.get("kind") == "field-overflow":
+        c = rp["case"]
+        big = c["unit"] * c["repeat"]
+        o = ctx.vh_robust("c09", [dict(a=big, b=big, ms=c["ms"])], timeout=180, one_timeout=90)[0]
+        print("replay: two identical sequences of %d symbols ->" % len(big), o.get("r"), "expected", (len(big), len(big)))
+        return
+    if rp.get("kind") == "call-site-run":
+        c = rp["case"]
+        case = dict(kind=c["kind"], seqs=c["seqs"])
+        if c.get("calls"):
+            case["calls"] = c["calls"]
+        obs = ctx.vh_robust("c09", [case], timeout=120, one_timeout=60)
+        stats = dict(evals=0, dist={})
+        n = eval_uses(ctx, [case], obs, stats)
+        print("replay: call-site run (%s, %d sequences) -> %d calls, ORACLE-VIOLATIONS=%d" % (c["kind"], len(c["seqs"]), len(obs[0].get("r", [])), n))
+        return
     c = rp["case"]
     cases = with_sym([(c["a"], c["b"], c["ms"])])
     for x in cases:
